@@ -19,7 +19,7 @@ def c01(tier):
     cfgs = ["std", "std+compact"] if tier == "quick" else core.ALL_CONFIGS
     inputs = value_corpus(gen.F64, tier, "C01")
     parsecheck.parse_property_check(
-        "C01", tier, inputs, cfgs, {"VALUE"},
+        "C01", tier, inputs, cfgs, {"VALUE", "MODEL"},
         rule="f64 inputs from families G1 (plain), G2 (midpoint-derived variants for every/selected exponent field), "
              "G4 (seams), G5 (extremes), G6 (run-structured); distinct = distinct (int,frac,exp) triples; "
              "every record is adjudicated by TLC with IEEE!Judge",
@@ -31,7 +31,7 @@ def c02(tier):
     cfgs = ["std", "std+compact"] if tier == "quick" else core.ALL_CONFIGS
     inputs = value_corpus(gen.F32, tier, "C02")
     parsecheck.parse_property_check(
-        "C02", tier, inputs, cfgs, {"VALUE"},
+        "C02", tier, inputs, cfgs, {"VALUE", "MODEL"},
         rule="f32 inputs, same families as C01 with the f32 constants; single rounding is decided directly by the oracle",
         level_note="as C01")
 
